@@ -235,7 +235,10 @@ def run(col):
         return test
     core.run_property(col, t_lots, budget(15, 150, col.tier), tag='lots')
     prof = {'max_steps': 10 if col.tier == 'quick' else 20, 'max_dim': 3, 'keep_failing': False,
-            'weights': {'remove': 3, 'transfer': 8, 'solution': 3}, 'dilute_new_name': False, 'chain': True}
+            'weights': {'remove': 3, 'transfer': 8, 'solution': 3}, 'dilute_new_name': False, 'chain': True,
+            # on every other shard a list of wells may name a well twice (it then takes part twice in the step; the
+            # ledger is built from the states the direct calls reach, whatever that means well by well)
+            'dup_wells': col.shard % 2 == 1}
 
     def t():
         @given(st.data())
